@@ -196,6 +196,8 @@ enum Step {
     Publish { #[serde(default)] qos: u8, #[serde(default)] size: usize },
     Subscribe {},
     Unsubscribe {},
+    /// the broker sends n QoS 0 publishes (tagged payloads of `size` bytes) to the client
+    Inbound { n: usize, #[serde(default)] size: usize },
     /// let everything finish: generous virtual time, then collect results and the loop's state
     Settle { #[serde(default = "d_ms")] ms: u64 },
 }
@@ -216,6 +218,10 @@ struct Run {
     pending: Vec<(u64, OpFuture)>,
     next_op: u64,
     broker_pid_seen: Vec<(u8, u16)>,
+    received: Arc<Mutex<Vec<(u64, bool)>>>,
+    framing_error_logged: bool,
+    next_in: u64,
+    sent_in: u64,
 }
 
 impl Run {
@@ -239,7 +245,7 @@ impl Run {
         let n_conns = self.conns.lock().unwrap().len();
         let Some(conn) = self.current() else { return; };
         let mut answers: Vec<Packet> = Vec::new();
-        let mut logs: Vec<(String, u16, usize)> = Vec::new();
+        let mut logs: Vec<(String, u16, usize, u64, u8)> = Vec::new();
         {
             let mut s = conn.lock().unwrap();
             let framed = rc::frame(&s.written[s.parsed..]);
@@ -248,7 +254,8 @@ impl Run {
                 s.parsed = base + end;
                 match rc::decode(first, &body, true) {
                     Ok(p) => {
-                        logs.push((rc::type_name(p.ptype).to_string(), p.pid(), end));
+                        let (tag, intact) = if p.ptype == rc::PUBLISH { let (t, ok) = verif_harness::trace::check_payload(p.bytes("payload").unwrap_or(&[])); (t, ok as u8) } else { (0, 1) };
+                        logs.push((rc::type_name(p.ptype).to_string(), p.pid(), end, tag, intact));
                         if self.auto && !s.eof && !s.read_err {
                             match p.ptype {
                                 rc::CONNECT => answers.push(Packet::new(rc::CONNACK).with("session_present", V::Flag(false)).with("reason_code", V::U(0))),
@@ -261,13 +268,16 @@ impl Run {
                             }
                         }
                     }
-                    Err(e) => logs.push((format!("UNDECODABLE:{}", e), 0, end)),
+                    Err(_) => logs.push(("UNDECODABLE".to_string(), 0, end, 0, 0)),
                 }
             }
             for a in &answers { let bytes = rc::encode(a, true, None); s.inbox.extend(bytes.iter()); s.fed.extend(bytes.iter()); }
             if !answers.is_empty() { wake(&mut s); }
         }
-        for (ty, pid, _) in logs { self.emit("Wrote", vec![("conn", json!(n_conns)), ("type", json!(ty)), ("pid", json!(pid))]); }
+        if rc::frame(&conn.lock().unwrap().written).error_at.is_some() && !self.framing_error_logged { self.framing_error_logged = true; logs.push(("UNDECODABLE".to_string(), 0, 0, 0, 0)); }
+        for (ty, pid, _, tag, intact) in logs { self.emit("Wrote", vec![("conn", json!(n_conns)), ("type", json!(ty)), ("pid", json!(pid)), ("tag", json!(tag)), ("intact", json!(intact))]); }
+        let list: Vec<(u64, bool)> = std::mem::take(&mut *self.received.lock().unwrap());
+        for (tag, intact) in list { self.emit("Recv", vec![("tag", json!(tag)), ("intact", json!(intact as u8))]); }
     }
 
     async fn settle_tasks(&mut self, rounds: usize) {
@@ -360,11 +370,14 @@ async fn run_script(script: &Script, run_no: u64, tr: Trace) -> Trace {
 
     let client = new_tokio_client(cb.build(), co.build(), TokioOptions::builder(tokio::runtime::Handle::current()).build(), factory);
     let ev_sink = events.clone();
+    let received: Arc<Mutex<Vec<(u64, bool)>>> = Arc::new(Mutex::new(Vec::new()));
+    let rx_sink = received.clone();
     let listener: Arc<ClientEventListenerCallback> = Arc::new(move |e: Arc<ClientEvent>| {
+        if let ClientEvent::PublishReceived(p) = &*e { let payload = p.publish.payload().map(|x| x.to_vec()).unwrap_or_default(); let (t, ok) = verif_harness::trace::check_payload(&payload); rx_sink.lock().unwrap().push((t, ok)); }
         if let Some(kind) = event_kind(&e) { let d = tokio::time::Instant::now() - t0; ev_sink.lock().unwrap().push((d.as_millis() as u64, d.as_micros() as u64, r0.elapsed().as_micros() as u64, kind.to_string())); }
     });
 
-    let mut r = Run { tr, t0, conns, plan, plan_seq, events, auto: cfg.auto_broker, pending: Vec::new(), next_op: 1, broker_pid_seen: Vec::new() };
+    let mut r = Run { tr, t0, conns, plan, plan_seq, events, auto: cfg.auto_broker, pending: Vec::new(), next_op: 1, broker_pid_seen: Vec::new(), received, framing_error_logged: false, next_in: 1000, sent_in: 0 };
     r.tr.begin_run(run_no);
     r.tr.emit("Cfg", vec![("src", json!(cfg.src)), ("driver", json!("tokio")), ("baseMs", json!(cfg.base_ms.map(|x| x as i64).unwrap_or(-1))), ("maxMs", json!(cfg.max_ms.map(|x| x as i64).unwrap_or(-1))),
         ("stableMs", json!(cfg.stable_ms.map(|x| x as i64).unwrap_or(-1))), ("jitter", json!(cfg.jitter)), ("faithful", json!(0)), ("policy", json!(cfg.policy)),
@@ -432,8 +445,7 @@ async fn run_script(script: &Script, run_no: u64, tr: Trace) -> Trace {
             Step::AutoBroker { on } => { r.auto = *on; }
             Step::Publish { qos, size } => {
                 let id = r.next_op; r.next_op += 1;
-                let mut payload = format!("p{};", id).into_bytes();
-                while payload.len() < *size { payload.push(b'a' + (payload.len() % 23) as u8); }
+                let payload = verif_harness::trace::payload_for(id, *size);
                 let q = match qos { 0 => QualityOfService::AtMostOnce, 1 => QualityOfService::AtLeastOnce, _ => QualityOfService::ExactlyOnce };
                 let fut = client.publish(PublishPacket::builder("t/verif".to_string(), q).with_payload(payload).build(), None);
                 r.emit("OpSubmit", vec![("op", json!(id)), ("kind", json!("pub")), ("qos", json!(qos)), ("afterClose", json!(closed as u8))]);
@@ -450,6 +462,18 @@ async fn run_script(script: &Script, run_no: u64, tr: Trace) -> Trace {
                 let fut = client.unsubscribe(UnsubscribePacket::builder().with_topic_filter(format!("u/{}/a", id)).build(), None);
                 r.emit("OpSubmit", vec![("op", json!(id)), ("kind", json!("unsub")), ("qos", json!(0)), ("afterClose", json!(closed as u8))]);
                 r.pending.push((id, Box::pin(async move { match fut.await { Ok(_) => Ok("ok".to_string()), Err(e) => Err(verif_harness::sim::err_kind(&e).to_string()) } })));
+            }
+            Step::Inbound { n, size } => {
+                if let Some(c) = r.current() {
+                    for _ in 0..*n {
+                        let tag = r.next_in; r.next_in += 1; r.sent_in += 1;
+                        let p = Packet::new(rc::PUBLISH).with("topic", V::S("in/verif".into())).with("qos", V::U(0)).with("packet_id", V::U(0)).with("duplicate", V::Flag(false)).with("retain", V::Flag(false))
+                            .with("payload", V::Bytes(verif_harness::trace::payload_for(tag, *size)));
+                        let bytes = rc::encode(&p, true, None);
+                        { let mut s = c.lock().unwrap(); s.inbox.extend(bytes.iter()); s.fed.extend(bytes.iter()); wake(&mut s); }
+                        r.emit("Sent", vec![("conn", json!(1)), ("tag", json!(tag)), ("size", json!(size))]);
+                    }
+                }
             }
             Step::Settle { ms } => {
                 let mut left = (*ms).max(100);
@@ -472,7 +496,7 @@ async fn run_script(script: &Script, run_no: u64, tr: Trace) -> Trace {
     r.flush_client_events();
     // judge = 0 when the script left the transport unresponsive (a stalled write that was never released, a hanging connect)
     let stalled = r.current().map(|c| { let s = c.lock().unwrap(); s.write_stall && !s.dropped && !s.shutdown_by_client }).unwrap_or(false) || *r.plan.lock().unwrap() == "hang";
-    r.emit("End", vec![("loopAlive", json!(alive as u8)), ("closed", json!(closed as u8)), ("unresolved", json!(unresolved.len())), ("judge", json!(!stalled as u8))]);
+    r.emit("End", vec![("loopAlive", json!(alive as u8)), ("closed", json!(closed as u8)), ("unresolved", json!(unresolved.len())), ("judge", json!(!stalled as u8)), ("expectAllRecv", json!((!closed && r.sent_in > 0) as u8))]);
     let _ = &r.broker_pid_seen;
     r.tr
 }
